@@ -72,6 +72,13 @@ void DependencyInfoParser::parse() {
     const char* opcodeStart = cur;
     auto opcode = Opcode(*cur++);
     const char* operandStart = cur;
+
+    // The terminating null byte may not double as an opcode: a record needs an
+    // operand after it.
+    if (cur == end) {
+      actions.error("missing operand", opcodeStart - data.data());
+      break;
+    }
     while (*cur != '\0') {
       ++cur;
       // We require the file have a terminating null, so we can never scan past
